@@ -493,3 +493,59 @@ Proof.
   repeat (destruct H as [H|H]; [subst c; vm_compute; repeat split; reflexivity|]).
   subst c; vm_compute; repeat split; reflexivity.
 Qed.
+
+(* ---------- 3c. %d and strconv.ParseUint ---------- *)
+Lemma pu_step : forall k r m us, k < 10 -> m * 10 + k <= max_u64 ->
+  pu_loop 10 ((48 + k) :: r) m us = pu_loop 10 r (m * 10 + k) us.
+Proof.
+  intros k r m us Hk Hm. cbn [pu_loop].
+  replace (48 + k =? 95) with false by lia.
+  unfold digit_val, in_range. replace ((48 <=? 48 + k) && (48 + k <=? 57)) with true by lia.
+  replace (48 + k - 48) with k by lia.
+  replace (10 <=? k) with false by lia. replace (max_u64 <? m * 10 + k) with false by lia. reflexivity.
+Qed.
+
+Lemma dec_digits_spec : forall f n acc, n < 2 ^ N.of_nat f -> n <= max_u64 ->
+  exists c ds, dec_digits (S f) n acc = c :: ds ++ acc /\ is_digit c = true /\ forallb is_digit ds = true
+    /\ (0 < n -> c <> 48)
+    /\ forall rest us, pu_loop 10 (c :: ds ++ rest) 0 us = pu_loop 10 rest n us.
+Proof.
+  induction f as [|f IH]; intros n acc Hn Hmax.
+  - change (2 ^ N.of_nat 0) with 1 in Hn. assert (n = 0) by lia. subst n.
+    exists 48, []. repeat split; try reflexivity; try lia.
+    intros rest us. cbn [app]. change 48 with (48 + 0). apply pu_step; unfold max_u64; lia.
+  - cbn [dec_digits]. destruct (n <? 10) eqn:E.
+    + exists (48 + n mod 10), []. repeat split.
+      * unfold is_digit, in_range. lia.
+      * lia.
+      * intros rest us. cbn [app]. rewrite pu_step by lia. f_equal. lia.
+    + assert (Hp : 2 ^ N.of_nat (S f) = 2 * 2 ^ N.of_nat f).
+      { rewrite Nat2N.inj_succ. apply N.pow_succ_r'. }
+      destruct (IH (n / 10) ((48 + n mod 10) :: acc)) as [c [ds [E1 [E2 [E3 [E4 E5]]]]]]; [lia|lia|].
+      rewrite E1. exists c, (ds ++ [48 + n mod 10]). repeat split.
+      * rewrite <- app_assoc. reflexivity.
+      * exact E2.
+      * rewrite forallb_app, E3. cbn [forallb]. unfold is_digit, in_range. lia.
+      * intros _. apply E4. lia.
+      * intros rest us. rewrite <- app_assoc. cbn [app]. rewrite E5, pu_step by lia. f_equal. lia.
+Qed.
+
+Lemma size_nat_gt : forall n, n < 2 ^ N.of_nat (N.size_nat n).
+Proof.
+  intros [|p]; [reflexivity|]. cbn [N.size_nat].
+  induction p as [p IH|p IH|]; cbn [Pos.size_nat]; try rewrite Nat2N.inj_succ, N.pow_succ_r'; try lia.
+  reflexivity.
+Qed.
+
+Lemma decimal_spec : forall n, n <= max_u64 ->
+  exists c ds, decimal n = c :: ds /\ is_digit c = true /\ forallb is_digit ds = true
+    /\ parse_uint0 (c :: ds) = Some n.
+Proof.
+  intros n Hmax. unfold decimal.
+  destruct (dec_digits_spec (N.size_nat n) n [] (size_nat_gt n) Hmax) as [c [ds [E1 [E2 [E3 [E4 E5]]]]]].
+  rewrite app_nil_r in E1. exists c, ds. repeat split; try assumption.
+  destruct (N.eq_dec n 0) as [->|Hn].
+  - vm_compute in E1. inversion E1. reflexivity.
+  - unfold parse_uint0. replace (c =? 48) with false by lia.
+    specialize (E5 [] false). rewrite app_nil_r in E5. rewrite E5. reflexivity.
+Qed.
